@@ -8,7 +8,10 @@ answers, and sorts every failure signature into
 * anything else                                                                -> oracle failure = VIOLATION
 
 Signatures never start with `strict:`-known matches: inside the guard `Strict` (the region the
-`_partial` theorems cover) every failure is a violation.
+`_partial` theorems cover) every failure is a violation.  The same holds for `unmodelled:`: the
+driver puts that prefix on every failure of a case on which the implementation did not behave
+exactly as the model of the code as it is (or for which there is no model: the oracle-only
+streams) — a recorded finding explains only behaviour the model reproduces.
 """
 import binascii
 import os
@@ -64,6 +67,8 @@ RAW_EXPECT = {
     "fb-input-default-not-applied": ("C02", r"r0=Int:0 "),
     "struct-field-initialiser-ignored": ("C02", r" d=DInt:0 "),
     "struct-field-case": ("C01", r"^UndefinedField "),
+    "temp-initialiser-undefined": ("C01", r"^UndefinedVariable "),
+    "temp-initialiser-family": ("C03", r" x=Bool:1 y=DInt:3"),
 }
 
 
@@ -101,7 +106,7 @@ def make_extra(pid):
             if sig in ("ok", "na"):
                 continue
             hit = None
-            if not sig.startswith("strict"):
+            if not sig.startswith(("strict", "unmodelled")):
                 for f in findings:
                     if re.search(f["match"], sig):
                         hit = f
